@@ -347,6 +347,55 @@ fn conversions(ctx: &mut Ctx, index: u64, rng: &mut Rng) {
     m3.insert("a".into(), vec![]);
     m3.insert("b".into(), vec![rng.next_u64()]);
     conv_check!(ctx, index, HashMap<String, Vec<u64>>, m3.clone());
+    // the three ways of building an array value (owned Vec, &Vec, slice) must give equal values with equal encodings
+    macro_rules! array_paths {
+        ($t:ty, $v:expr) => {{
+            let v: Vec<$t> = $v;
+            let name = stringify!($t);
+            ctx.count("conversion_checks", 1);
+            ctx.count("array_construction_paths", 1);
+            let owned = Value::from(zvariant::Array::from(v.iter().map(|x| x.try_clone_val()).collect::<Vec<$t>>()));
+            let by_ref = Value::from(zvariant::Array::from(&v));
+            let by_slice = Value::from(zvariant::Array::from(&v[..]));
+            for (how, other) in [("&Vec", &by_ref), ("slice", &by_slice)] {
+                let same_sig = owned.value_signature().to_string() == other.value_signature().to_string();
+                let a = zvariant::to_bytes(dbus_ctxt(Endian::Le, 0), &owned).map(|d| d.bytes().to_vec()).map_err(|e| e.to_string());
+                let b = zvariant::to_bytes(dbus_ctxt(Endian::Le, 0), other).map(|d| d.bytes().to_vec()).map_err(|e| e.to_string());
+                if owned != *other || !same_sig || a != b {
+                    ctx.finding(index, "construction-paths-disagree", how, name, json!({"element_type": name, "owned": format!("{owned:?}"), "other": format!("{other:?}"),
+                        "equal": owned == *other, "same_signature": same_sig, "owned_encoding": format!("{a:?}"), "other_encoding": format!("{b:?}")}));
+                }
+            }
+        }};
+    }
+    trait TryCloneVal {
+        fn try_clone_val(&self) -> Self;
+    }
+    impl TryCloneVal for u32 {
+        fn try_clone_val(&self) -> Self {
+            *self
+        }
+    }
+    impl TryCloneVal for String {
+        fn try_clone_val(&self) -> Self {
+            self.clone()
+        }
+    }
+    impl TryCloneVal for Vec<u8> {
+        fn try_clone_val(&self) -> Self {
+            self.clone()
+        }
+    }
+    impl<'a> TryCloneVal for Value<'a> {
+        fn try_clone_val(&self) -> Self {
+            self.try_clone().unwrap()
+        }
+    }
+    array_paths!(u32, (0..rng.clone().usize_below(4)).map(|_| rng.next_u32()).collect());
+    array_paths!(String, (0..rng.clone().usize_below(4)).map(|i| format!("s{i}")).collect());
+    array_paths!(Vec<u8>, vec![vec![], rng.bytes(3)]);
+    array_paths!(Value<'static>, vec![Value::from(rng.next_u32()), Value::from(7u32)]);
+    array_paths!(Value<'static>, vec![Value::from("x"), Value::from("yz"), Value::from("")]);
     // tuples go through Structure
     {
         let x: (u8, String, u64) = (rng.next_u64() as u8, "t".into(), rng.next_u64());
